@@ -69,6 +69,9 @@ type Report struct {
 	VerifDir   string
 	mins       map[string]int
 	minWhy     map[string]string
+	// Rename maps a rule-id prefix to another one while another property's rules run as a shared part of this
+	// property's check (e.g. "C07." → "C06.R14·C07."); applied to every obligation and minimum recorded meanwhile.
+	Rename map[string]string
 }
 
 func VerifDir() string {
@@ -96,7 +99,17 @@ func New(prop, tier, level string) *Report {
 
 // Min registers the minimum number of obligations a rule must produce (confirmed
 // by hand on the pinned tree); fewer is UNDECIDED, never a vacuous pass.
+func (r *Report) rn(rule string) string {
+	for from, to := range r.Rename {
+		if strings.HasPrefix(rule, from) {
+			return to + rule[len(from):]
+		}
+	}
+	return rule
+}
+
 func (r *Report) Min(rule string, n int, why string) {
+	rule = r.rn(rule)
 	r.mins[rule] = n
 	r.minWhy[rule] = why
 }
@@ -112,12 +125,14 @@ func (r *Report) add(o *Obligation) *Obligation {
 }
 
 func (r *Report) Hold(rule, construct, text string, paths int) *Obligation {
+	rule = r.rn(rule)
 	return r.add(&Obligation{Rule: rule, Construct: construct, Text: text, Status: Holds, Paths: paths})
 }
 
 // Fail records a violated obligation (or a KNOWN one when listed in the known
 // findings file by rule + construct).
 func (r *Report) Fail(rule, construct, text, pos, detail string, witness []string) *Obligation {
+	rule = r.rn(rule)
 	o := &Obligation{Rule: rule, Construct: construct, Text: text, Pos: pos, Status: Violated, Detail: detail, Witness: witness}
 	for _, f := range r.known {
 		if f.Rule == rule && f.Construct == construct {
@@ -129,6 +144,7 @@ func (r *Report) Fail(rule, construct, text, pos, detail string, witness []strin
 }
 
 func (r *Report) Undecided(rule, construct, text, reason string) *Obligation {
+	rule = r.rn(rule)
 	return r.add(&Obligation{Rule: rule, Construct: construct, Text: text, Status: Undecided, Detail: reason})
 }
 
